@@ -19,7 +19,7 @@ def languages(thorough):
                            RelOps=['<'], AddOps=['+'], MulOps=['/'], PowOps=[], NegOps=[], Strs=[], Consts=[],
                            RangeL=['['], RangeR=[']!'], CallFuns=['len'], SetLens=[1], Fields=[])))
     L.append(('prop', dict(Start=30, MaxTok=11 if thorough else 10, PredPool='SmallPool', Channels=['t', 'u'],
-                           Times=['100'], DisjLens=[2] if not thorough else [2, 3])))
+                           Times=['100', '0'], DisjLens=[2] if not thorough else [2, 3])))
     return L
 
 
